@@ -55,7 +55,7 @@ pub fn run(run: &'static Run) {
          (ordered), each with and without commit-graph; plus every DAG once with all its queries on one reused Graph. \
          non-trivial = the two sides are not in an ancestor relation with each other trivially, i.e. expected bases != {first} and != others",
     );
-    run.assume("oracle = exact reference model (maximal elements of ancestors(first) ∩ ⋃ancestors(others)); the model is compared with `git merge-base --all` (git 2.39.5) on every query of every DAG with n<=3 (quick: date patterns equal/skewed) and n=4 with date patterns equal/skewed (thorough); a model/git disagreement is a machinery error");
+    run.assume("oracle = exact reference model (maximal elements of ancestors(first) ∩ ⋃ancestors(others)); the model is compared with `git merge-base --all` (git 2.39.5) on every query of every DAG with n<=3 (quick: skewed dates only) and n=4 with date patterns equal/skewed (thorough); a model/git disagreement is a machinery error");
     run.assume("result compared as a set (the statement says 'exactly the set'); duplicates in gitoxide's answer are a violation");
     run.budget_secs(run.pick(36.0, 540.0));
 
@@ -204,7 +204,7 @@ pub fn run(run: &'static Run) {
             for d in dags {
                 let n = d.n();
                 let pat_ok = d.dates == dag::date_pattern(n, 1) || d.dates == dag::date_pattern(n, 2);
-                if if quick { n <= 3 && pat_ok } else { n <= 3 || (n == 4 && pat_ok) } {
+                if if quick { n <= 3 && d.dates == dag::date_pattern(n, 2) } else { n <= 3 || (n == 4 && pat_ok) } {
                     queries(n, |first, others| emit(Case { dag: d.clone(), first, others, graph: false, git: true }));
                 }
             }
